@@ -22,11 +22,12 @@ Proof.
            (conj glue_div_matches_model glue_shift_matches_model))).
 Qed.
 
-(* second round (the non-loop functions of buint/mod.rs, bint/mod.rs, ...): one family statement per property *)
+(* second round (the non-loop functions of buint/mod.rs, bint/mod.rs, const_trait_fillers.rs, int/unchecked.rs and the
+   functions of checked.rs / overflowing.rs with nested early returns or `let mut`): one family statement per property *)
 Theorem glue2_matches_model :
-  glue_addsub2_statement /\ glue_div2_statement /\ glue_rotate_statement /\ glue_bits_statement /\
+  glue_addsub2_statement /\ glue_mul2_statement /\ glue_div2_statement /\ glue_rotate_statement /\ glue_bits_statement /\
   glue_sign_statement /\ glue_pow_statement.
 Proof.
-  exact (conj glue_addsub2_matches_model (conj glue_div2_matches_model (conj glue_rotate_matches_model
-           (conj glue_bits_matches_model (conj glue_sign_matches_model glue_pow_matches_model))))).
+  exact (conj glue_addsub2_matches_model (conj glue_mul2_matches_model (conj glue_div2_matches_model
+           (conj glue_rotate_matches_model (conj glue_bits_matches_model (conj glue_sign_matches_model glue_pow_matches_model)))))).
 Qed.
